@@ -29,7 +29,9 @@ def intSource : GoVal → Option IntSource
   | _ => none
 
 inductive CrossExpect
-  | merr                        -- Marshal must refuse (the column cannot hold the number) or documents a refusal
+  | merr                        -- Marshal must refuse: the column cannot hold the number
+  | refuseOr (v : GoVal)        -- Marshal may refuse (a refusal gocql performs for this Go kind); when it accepts,
+                                -- Unmarshal gives this value
   | ok (v : GoVal)              -- Marshal accepts and Unmarshal gives this value
   | unrepresentable             -- the destination cannot hold the number: not claimed here
   | excluded (kf : String)      -- a recorded deviation of the unchanged code (known finding `kf`)
@@ -65,17 +67,17 @@ def crossSpec (t : CqlTy) (g : GoVal) (ty : GoTy) : CrossExpect :=
          if fitsS w s.n then none
          else if s.unsigned && decide ((2:Int)^(8*w-1) ≤ s.n) && decide (s.n < (2:Int)^(8*w)) then some (.excluded "KF-C02-1")
          else some .merr
-       | none =>
-         -- documented refusals: `uint` / named unsigned kinds above MaxInt64, strings outside int64 (strconv.ParseInt)
-         if s.unsigned && decide (s.n ≥ 9223372036854775808) && !s.bareU64 then some .merr
-         else if s.isString && !fitsS 8 s.n then some .merr
-         else none)
+       | none => none)
+    -- refusals of a number the varint column could hold: `uint` / named unsigned kinds above MaxInt64 (marshalBigInt's
+    -- range check), strings outside int64 (strconv.ParseInt) — "encoding either fails with an error or …"
+    let mayRefuse : Bool := col.isNone &&
+      ((s.unsigned && decide (s.n ≥ 9223372036854775808) && !s.bareU64) || (s.isString && !fitsS 8 s.n))
     (match accept with
      | some e => e
      | none =>
        (match stripPtr ty with
         | (k, base) => (match crossTarget col.isNone s.n base with
-            | .ok v => .ok (wrapPtr k v)
+            | .ok v => if mayRefuse then .refuseOr (wrapPtr k v) else .ok (wrapPtr k v)
             | other => other)))
   | _, _ => .undocumented
 
